@@ -25,9 +25,11 @@ CHECKS = {
     "C05": ("proof", "4.1, 5 C05", "Kani function contracts, two's-complement view",
             "Signed fields i8..i128 (plain, array, non-contiguous, full width) are proved with the view (v as uN) as u128; a sign-extension leak sets bits outside the ranges and fails the put_spec equality for a negative value."),
     "C06": ("proof", "4.1, 5 C06", "Kani function contracts + constant/layout harnesses",
-            "new_with_raw_value/raw_value are under exact contracts for every base in the corpus (thorough: all 127 widths), the round trip is a lemma, ZERO/DEFAULT/new()/Default::default(), size_of/align_of/Copy are asserted for all default forms."),
+            "new_with_raw_value/raw_value are under exact contracts for every base in the corpus (thorough: all 127 widths), the round trip is a lemma, ZERO/DEFAULT/new()/Default::default(), size_of/align_of/Copy are asserted for all default forms "
+            "(literal in hex/binary/octal/decimal/suffixed notation, named constant, `=` and legacy `:`); the item shell (struct is Copy over one storage integer; ZERO, DEFAULT, new(), impl Default present exactly when declared) "
+            "is first checked against the parsed expansion; BaseDataSize::new (storage = least native width) is under a Kani contract in the annotated copy of the generator."),
     "C07": ("proof", "4.1, 5 C07", "Kani function contracts on the dumped bitenum expansions",
-            "raw_value and new_with_raw_value of every corpus bitenum are proved against the declaration's discriminant table for all raw values of the storage type and all variants, both round trips as lemmas; "
+            "The API shape is first checked against the parsed expansion (Self iff exhaustive = true, Result<Self, storage> otherwise, pub const fn); raw_value and new_with_raw_value of every corpus bitenum are proved against the declaration's discriminant table for all raw values of the storage type and all variants, both round trips as lemmas; "
             "unreachable!()/UInt::new panics are inside the proof. N in 1..=64 (quick: 14 widths), exhaustive sets for N<=8 declared out of order, conditional enums with cfg-gated variants."),
     "C08": ("proof", "4.1, 5 C08", "Kani function contracts, enum/nested conversions inlined",
             "Enum, Option<enum> and nested-bitfield fields are proved with the view discr(v) / inner raw value (1-bit, arbitrary, native 8/16/32/64 widths, arrays, range lists); the conversion functions are inlined real code in these proofs."),
@@ -59,7 +61,9 @@ CHECKS.update({
             "is compiled with the real macro and compared with the rule of C10; every accepted enum's conversions are proved total and exact for all raw values by Kani.", ACC_NOTE),
     "C14": ("translation_validation", "4.5, 5 C14", "API inventory of the real expansion vs rule oracle + must/must-not-compile type-state programs (rustc)",
             "For 30+ layouts (complete/incomplete, with/without default, overlapping fields, overlapping array elements, self-overlapping range lists, read-only gaps, arbitrary bases) the parsed real expansion must contain builder() exactly when the rule allows it, "
-            "the exact Partial<mask> chain with build() only on the final mask; the complete chain must compile in const context and every proper prefix, every chain with a step left out and swapped steps must not.", INV_NOTE),
+            "the exact Partial<mask> chain with build() only on the final mask; the complete chain must compile in const context and every proper prefix, every chain with a step left out and swapped steps must not. "
+            "The generator's overlap test `ranges_have_self_overlap` is PROVED for every number of ranges and array elements (Verus on the re-extracted real function text: result <=> two distinct (element, range) pairs share a bit) "
+            "and additionally checked by bounded Kani harnesses that supply counterexamples.", INV_NOTE),
     "C17": ("translation_validation", "4.5, 5 C17", "API inventory of the real expansion vs access specifiers + must/must-not-compile programs + Kani frame contracts",
             "For every field kind x access in r/w/rw/none the parsed real expansion must contain exactly the granted functions with the declared signatures (getter, with_, set_, builder step) and none of the withheld ones; "
             "use of a granted accessor must compile, use of a withheld one must not; that read-only bits cannot change is the put_spec frame of every mutator, proved by Kani.", INV_NOTE),
